@@ -18,14 +18,15 @@ From TL Require Import Lib.Base Lib.GenTypes Gen.MagicGen Model.MagicNum.
 (* ------------------------------------------------------------------ quirks *)
 (* true = "do what the code does", false = "do what the property demands" *)
 Record mquirks := {
-  q_py_bool_is_number      : bool;  (* True / False are ints for isinstance: reported as magic numbers *)
+  q_py_bool_is_number      : bool;  (* the types excluded from "numeric" are those the source excludes (none before the repair:
+                                       True / False were reported); false: bool is excluded *)
   q_py_upper_neg_flagged   : bool;  (* NAME = -5: the literal's parent is UnaryOp, not Assign *)
   q_py_upper_ann_flagged   : bool;  (* NAME: int = 5: the parent is AnnAssign, not Assign *)
   q_py_upper_tuple_flagged : bool;  (* NAME = (5, 6): the parent is Tuple, not Assign *)
-  q_ts_hex_e_float         : bool;  (* 0xFE contains "e": takes the float() path and is dropped *)
-  q_ts_bigint_dropped      : bool;  (* 10n: int("10n", 0) fails and the literal is dropped *)
+  q_ts_hex_e_float         : bool;  (* the int()-path prefixes are those of the source (none before the repair: 0xFE went to float()) *)
+  q_ts_bigint_dropped      : bool;  (* the stripped suffix is that of the source (none before the repair: 10n was dropped) *)
   q_ts_test_marker_anywhere: bool;  (* "test_" etc. searched in the whole path: contest_data.ts is "test code" *)
-  q_rs_hex_suffix_clash    : bool;  (* 0x1f32 loses "f32" and is read as 0x1 *)
+  q_rs_hex_suffix_clash    : bool;  (* the type suffixes tried are those the source tries (before the repair 0x1f32 lost "f32") *)
 }.
 Definition m_ideal : mquirks := Build_mquirks false false false false false false false false.
 
@@ -225,13 +226,13 @@ Definition to_py (f : file) : list (list pysite) :=
   flat_map (fun sc => map (to_py_site (sc_kind sc)) (sc_sites sc)) (f_scopes f).
 
 (* ------------------------------------------------------------------ Python: the analyzers *)
-Definition val_types (bool_is_int : bool) (v : pyval) : list string :=
-  match v with
-  | VInt _ => ["int"] | VFloat _ => ["float"] | VStr => ["str"]
-  | VBool _ => if bool_is_int then ["bool"; "int"] else ["bool"]
-  end.
-Definition val_isinstance (bool_is_int : bool) (v : pyval) (types : list string) : bool :=
-  existsb (fun t => smem t types) (val_types bool_is_int v).
+Definition val_types (v : pyval) : list string :=
+  match v with VInt _ => ["int"] | VFloat _ => ["float"] | VStr => ["str"] | VBool _ => ["bool"; "int"] end.
+Definition val_isinstance (v : pyval) (types : list string) : bool := existsb (fun t => smem t types) (val_types v).
+
+(* isinstance(v, T) and not isinstance(v, E): E as found in the source, or bool *)
+Definition excl (from_code : bool) (code_list : list string) : list string := if from_code then code_list else ["bool"].
+Definition val_is (v : pyval) (types excluded : list string) : bool := val_isinstance v types && negb (val_isinstance v excluded).
 Definition val_num (v : pyval) : num :=
   match v with
   | VInt z => norm (z, 0%Z) | VFloat n => norm n
@@ -259,14 +260,14 @@ Definition py_is_const_def (q : mquirks) (anc : list pyanc) : bool :=
 Definition parent_is_call (anc : list pyanc) (fname : string) : bool :=
   match anc with ACall (Some f) :: _ => String.eqb f fname | _ => false end.
 
-Definition py_small_in (b : bool) (types : list string) (lo : Z) (lo_cmp hi_cmp : cmp) (fname : string)
+Definition py_small_in (types : list string) (lo : Z) (lo_cmp hi_cmp : cmp) (fname : string)
            (cfg : mconfig) (s : pysite) : bool :=
-  val_isinstance b (p_val s) types
+  val_isinstance (p_val s) types
   && (cmp_z lo_cmp lo (val_int (p_val s)) && cmp_z hi_cmp (val_int (p_val s)) (max_small cfg))
   && parent_is_call (p_anc s) fname.
 
-Definition py_string_repetition (b : bool) (s : pysite) : bool :=
-  val_isinstance b (p_val s) py_strrep_value_types
+Definition py_string_repetition (s : pysite) : bool :=
+  val_isinstance (p_val s) py_strrep_value_types
   && match p_anc s with
      | ABinOp op l r :: _ => smem "BinOp" py_strrep_parent_types && smem op py_strrep_op_types && (l || r)
      | _ => false
@@ -276,13 +277,12 @@ Definition py_is_test_file (name : string) : bool :=
   prefix_l (chars py_test_prefix) (basename name) || contains (chars py_test_infix) (basename name).
 
 Definition py_site_report (q : mquirks) (cfg : mconfig) (is_test : bool) (s : pysite) : list mrep :=
-  let b := q_py_bool_is_number q in
-  if negb (val_isinstance b (p_val s) py_numeric_types) then []
+  if negb (val_is (p_val s) py_numeric_types (excl (q_py_bool_is_number q) py_numeric_excluded)) then []
   else if nmem (val_num (p_val s)) (allowed cfg) then []
   else if is_test || py_is_const_def q (p_anc s)
-          || py_small_in b py_range_value_types py_range_lo py_range_lo_cmp py_range_hi_cmp py_range_name cfg s
-          || py_small_in b py_enumerate_value_types py_enumerate_lo py_enumerate_lo_cmp py_enumerate_hi_cmp py_enumerate_name cfg s
-          || py_string_repetition b s
+          || py_small_in py_range_value_types py_range_lo py_range_lo_cmp py_range_hi_cmp py_range_name cfg s
+          || py_small_in py_enumerate_value_types py_enumerate_lo py_enumerate_lo_cmp py_enumerate_hi_cmp py_enumerate_name cfg s
+          || py_string_repetition s
        then []
        else [(p_line s, rval_of (p_val s))].
 
@@ -296,7 +296,7 @@ Definition def_name_match (name : string) : bool :=
 Definition def_upper_count_site (b : bool) (s : pysite) : nat :=
   match p_anc s with
   | [AAssign tg; AOther "Module"] =>
-    if val_isinstance b (p_val s) def_numeric_types
+    if val_is (p_val s) def_numeric_types (excl b def_numeric_excluded)
     then List.length (filter (fun t => match t with Some id => def_const_name id | None => false end) tg)
     else 0
   | _ => 0
@@ -306,7 +306,7 @@ Definition sum_nat (l : list nat) : nat := fold_right Nat.add 0 l.
 
 Definition def_int_keys (b : bool) (stmt : list pysite) : nat :=
   List.length (filter (fun s => match p_anc s with
-                                | ADict true :: _ => val_isinstance b (p_val s) def_int_key_types
+                                | ADict true :: _ => val_is (p_val s) def_int_key_types (excl b def_int_key_excluded)
                                 | _ => false
                                 end) stmt).
 
